@@ -458,7 +458,8 @@ def rule_frame(ctx, repo):
     rets = [(k, n, f) for k, n, f in mf.exits if k == 'return']
     built = want(new, 'cls.from_bytes(%s[1:-4], %s[0:1][0])' % (K, K))
     built2 = want(new, 'cls.from_bytes(%s[1:-4], %s[0])' % (K, K))
-    ok = rets and all('match' in f and ca(new, n.value) in (built, built2) for k, n, f in rets)
+    built3 = want(new, 'cls.from_bytes(%s[1:-4], %s[0:1][-1])' % (K, K))  # the last of a one-byte slice is its first
+    ok = rets and all('match' in f and ca(new, n.value) in (built, built2, built3) for k, n, f in rets)
     r.check(bool(ok), 'reader:checksum-dominates', new.site, 'an object is built only after the checksum matched, from (payload, version byte)', 'an object can be built without the checksum comparison, or from other values')
     bad = [(k, n, f) for k, n, f in mf.exits if 'mismatch' in f]
     if not bad:
